@@ -79,6 +79,17 @@ class C02(Spec):
                         st['xdur'] = rng.choice([-1, 1, 3, 25])       # append(..., duration=) other than the waveform's
                 QC.spell(rng, c, finite_delays=True, p=1.0)
             yield c
+        # all stimuli built by the caller in one scratch object that is re-filled / re-parametrised before each append,
+        # or one unchanged object appended under two keys: each notified trial plays the waveform queued under its key
+        for it in range(20 if tier == 'quick' else 400):
+            nst = rng.randint(2, 5)
+            c = {'kind': 'shared-source', 'fs': rng.choice(QC.FS_LIST), 't0': rng.choice([0, 0.5]), 'share': 'scratch'}
+            c.update(QC.policy_fields(rng.choice(QC.POLICIES), rng, nst))
+            c.pop('build', None)
+            c['stims'] = QC.shared_stims(rng, nst)
+            need = sum((s['len'] + 8) * (s['trials'] + 1) for s in c['stims'])
+            c['ops'] = [['pop', n] for n in rng.chunks(need + 5, max_parts=rng.choice([2, 3, 8]))]
+            yield c
         # requests with decrement=False (trial counters untouched: the policy keeps cycling), alone and mixed with
         # ordinary requests
         for it in range(40 if tier == 'quick' else 700):
